@@ -274,7 +274,7 @@ impl Prop for C10 {
     }
 
     fn run_wall_limit_s() -> u64 {
-        180
+        60
     }
 
     fn panics_are_violations() -> bool {
@@ -317,7 +317,7 @@ impl Prop for C08Pool {
     }
 
     fn run_wall_limit_s() -> u64 {
-        180
+        60
     }
 
     fn generate(r: &mut Rng, tier: Tier, _idx: u64) -> Scn {
@@ -360,7 +360,7 @@ impl Prop for C01Pool {
     }
 
     fn run_wall_limit_s() -> u64 {
-        180
+        60
     }
 
     fn generate(r: &mut Rng, tier: Tier, _idx: u64) -> Scn {
@@ -429,7 +429,7 @@ impl Prop for C15Pool {
     }
 
     fn run_wall_limit_s() -> u64 {
-        180
+        60
     }
 
     fn generate(r: &mut Rng, tier: Tier, _idx: u64) -> Scn {
